@@ -161,12 +161,14 @@ SB_OP(poly)
             sb_error_t rc2 = sb_poly_get_extrema(&p, nullptr);
             add(out, std::to_string((int)rc) + "," + fbits(iv.min) + "," + fbits(iv.max) + "," + (rc2 == SB_SUCCESS ? "=" : "!"));
         } else if (k == '4') {
-            // 4-D wrappers: components x=p, y=p', z=2p, yaw=const
+            // 4-D wrappers: components x=p, y=p', z=2p, yaw=977p+400
             float x = tokf(q.substr(1));
-            sb_poly_t py = base, pz = base, pw;
+            sb_poly_t py = base, pz = base, pw = base;
             sb_poly_deriv(&py);
             sb_poly_scale(&pz, 2.0f);
-            sb_poly_make_constant(&pw, x);
+            // the yaw component is a polynomial like the others (values far beyond one turn included): nothing is reduced
+            sb_poly_scale(&pw, 977.0f);
+            sb_poly_add_constant(&pw, 400.0f);
             sb_poly_4d_t P;
             P.x = base, P.y = py, P.z = pz, P.yaw = pw;
             bool ok = true;
